@@ -307,8 +307,9 @@ class Simulation:
         if not (
             include_derived_variables or include_readouts or include_surrogate_variables
         ):
+            # Copies, such that changing the returned frames doesn't change the result
             return self._adjust_data(
-                self.raw_variables,
+                [i.copy() for i in self.raw_variables],
                 normalise=normalise,
                 concatenated=concatenated,
             )
